@@ -40,7 +40,7 @@ pub fn property() -> Property {
             "cost monotonicity is asserted for L2 only (theorem for the mean update), allowed rise 4 sqrt(n cost) d + 2 n d^2 + 1e-12 cost with d = (n+64) eps scale sqrt(p)".into(),
             "bounding box slack (2n+8) eps scale (steady-state rounding excursion of a convex combination), box = data, plus the precomputed start when it lies outside".into(),
             "statistics are judged only for runs shown converged (identical centroids for budgets m and m+1 of the same deterministic run): counts must contain every point whose nearest centroid is clear by more than 2 tolerance, inertia within mean(tolerance (2 d_i + tolerance)) (L2) or tolerance (L1/Linf) of the mean minimal reduced distance".into(),
-            "restarts: Random, KMeans++ and Precomputed consume the caller's RNG as a prefix-stable stream (measured with a counting wrapper around Xoshiro256+; cases where that does not hold are skipped); KMeans|| is excluded (per-thread streams)".into(),
+            "restarts (fit, n_runs 1..=4, and fit_with(None, ..), n_runs 1..=8): every initialiser consumes the caller's RNG as a prefix-stable stream (measured with a counting wrapper around Xoshiro256+; cases where that does not hold are skipped); KMeans|| is included because the check pins rayon's global pool to one worker, which makes its per-job RNG seeding deterministic; on exactly tied costs any tied restart is accepted".into(),
             "memory layout: training records and query batches are passed row-major, column-major (owned) or as a strided view (every second row of a doubled array); precomputed centroids row-major, column-major or as to_owned() of a transpose; the oracles are layout-blind; additionally the fitted model and transform must be bit-identical to the row-major twin (same values, same per-row arithmetic); a model with non-row-major centroids is obtained through one fit_with(None, ..) step and judged for predict/transform only".into(),
             "trusted: ndarray, rand/rand_xoshiro, the harness' naive reference code".into(),
         ],
@@ -50,7 +50,7 @@ pub fn property() -> Property {
                 .require(&["metric_lp_odd_whole", "metric_lp_even_whole", "metric_lp_fractional", "precomputed_column_major", "precomputed_transposed_owned", "records_strided_view", "two_or_more_reassigning_steps", "exact_tie_in_assignment", "converged_run_statistics_judged", "stopped_within_budget"]),
             prop_sub("restarts", 30000, 300000, |t: Tier| cases::restarts_case(t), checks::check_restarts)
                 .chunks(16)
-                .require(&["best_run_is_not_last", "runs_reach_different_centroids", "best_run_converged"]),
+                .require(&["incremental_later_restart_beats_first_but_not_best", "init_para", "best_run_is_not_last", "runs_reach_different_centroids", "best_run_converged"]),
             prop_sub("assign", 60000, 600000, |t: Tier| cases::assign_case(t), checks::check_assign)
                 .chunks(16)
                 .require(&["metric_lp_odd_whole", "metric_lp_even_whole", "metric_lp_fractional", "precomputed_column_major", "model_centroids_not_row_major", "records_column_major", "row_major_twin_compared", "exact_tie_query", "init_para", "fewer_distinct_points_than_k", "fresh_queries"]),
